@@ -130,3 +130,44 @@ M('C06','silent-reorder-cache-writes','kvstore/typedvalue.go','''	t.valueCached 
 ''','''	t.hasCached = &falsePtr
 	t.valueCached = nil
 ''','',silent=True)
+
+# ---------------- C07
+M('C07','release-unguarded','kvstore/sequence.go','''	if seq.next >= seq.reserved {
+		// nothing is leased (never leased, exhausted or already released): the stored mark is already correct
+		return nil
+	}
+''','','seq/durable-mark-monotone store write in kvstore.Sequence.Release')
+M('C07','reserve-before-set','kvstore/sequence.go','''	err = seq.store.Set(seq.key, buf[:])
+	if err != nil {
+		return err
+	}
+	seq.reserved = reserved
+''','''	seq.reserved = reserved
+	err = seq.store.Set(seq.key, buf[:])
+	if err != nil {
+		return err
+	}
+''','seq/reserve-before-handout reserved write in kvstore.Sequence.update')
+M('C07','next-guard-offbyone','kvstore/sequence.go','if seq.next >= seq.reserved {\n\t\tif err','if seq.next > seq.reserved {\n\t\tif err','seq/next-guard kvstore.Sequence.Next')
+M('C07','any-error-is-notfound','kvstore/sequence.go','''	case ierrors.Is(err, ErrKeyNotFound):
+		seq.next = 0
+	case err != nil:
+		return err''','''	case ierrors.Is(err, ErrKeyNotFound) || err != nil:
+		seq.next = 0''','seq/init-only-on-notfound')
+M('C07','byteorder-read','kvstore/sequence.go','num := binary.BigEndian.Uint64(value)','num := binary.LittleEndian.Uint64(value)','seq/byte-order')
+M('C07','update-ignores-set-error','kvstore/sequence.go','''	err = seq.store.Set(seq.key, buf[:])
+	if err != nil {
+		return err
+	}
+	seq.reserved = reserved''','''	_ = seq.store.Set(seq.key, buf[:])
+	seq.reserved = reserved''','seq/reserve-before-handout')
+M('C07','next-no-lock','kvstore/sequence.go','''func (seq *Sequence) Next() (uint64, error) {
+	seq.Lock()
+	defer seq.Unlock()
+''','''func (seq *Sequence) Next() (uint64, error) {
+''','lock/guarded-by')
+M('C07','reserved-other-value','kvstore/sequence.go','	seq.reserved = reserved\n','	seq.reserved = reserved + seq.interval\n','seq/reserve-before-handout')
+M('C07','silent-guard-form','kvstore/sequence.go','if seq.next >= seq.reserved {\n\t\tif err','if !(seq.next < seq.reserved) {\n\t\tif err','',silent=True)
+M('C07','silent-release-guard-form','kvstore/sequence.go','''	if seq.next >= seq.reserved {
+		// nothing is leased''','''	if seq.reserved == 0 || seq.reserved <= seq.next {
+		// nothing is leased''','',silent=True)
